@@ -11,6 +11,13 @@ CHECKS = {
  "C02": dict(engine="E1 input-space enumerator + worker processes", technique="bounded exhaustive input enumeration on the real parser; deep inputs in child processes classified by exit status",
    text="Same enumeration as C01 with the oracle 'parse_module returns': panics are caught per input, aborts/stack overflows are observed as worker deaths on a depth ladder for every self-nesting construct.",
    note="Depth ladder is powers of two up to the tier bound; per-run time caps are reported as caps, never as verdicts.", ref="5/C02"),
+
+ "C13": dict(engine="stateright BFS + in-process router", technique="explicit-state model checking (stateright BFS) with the real Vfs/convert code as transition function, reference LSP client as model; plus exhaustive two-change notifications through the real Server router",
+   text="All client documents up to L symbols are states; every valid (start,end,replacement) edit and full-text change is a transition executed on the real Vfs::change_file_content via convert::from_range and compared with the reference client; the line-map freshness invariant checked in every state justifies deduplicating on client text. The per-change loop of on_did_change is covered by all ordered pairs of edits in one notification.",
+   note="Bounds in evidence. Trusted: the reference client model (LSP 3.17 positions); the syntax-tree dump as observation of the server text.", ref="5/C13"),
+ "C14": dict(engine="E1 input-space enumerator", technique="bounded exhaustive enumeration of documents x boundaries x ordered pairs on the real LineMap/convert code against a reference UTF-16 client",
+   text="Every document up to L symbols over {ASCII, LF, 2/3/4-byte}: every character boundary and every ordered pair is converted by the real code; round trip, strict monotonicity, agreement with the reference client, to_range selection, line lengths.",
+   note="Long documents are a capped (periodic) layer, reported as such.", ref="5/C14"),
 }
 
 NOT_YET = {
